@@ -15,6 +15,7 @@ equal bodies (congruence), combine a linear combination of sums into one sum -- 
 to z3/cvc5 (vf.smt).  A data-dependent branch on a symbolic value calls __bool__ and raises OutsideSubset.
 """
 import fractions, itertools, math
+import os
 import z3
 from .core import OutsideSubset, EngineUnsound
 from . import core, smt
@@ -154,6 +155,7 @@ class Paths:
         self.facts = list(facts)
         self.max_paths = max_paths
         self.pc, self.trace, self.plan, self.pending = [], [], [], []
+        self.equal_dims = set()
 
     def feasible(self, c):
         s = z3.Solver()
@@ -190,6 +192,7 @@ class Paths:
             while work:
                 self.plan = work.pop()
                 self.pc, self.trace, self.pending = [], [], []
+                self.equal_dims = set()
                 v = thunk()
                 out.append((list(self.pc), v))
                 work.extend(self.pending)
@@ -269,6 +272,35 @@ class Dim:
             SIZE_THRESHOLDS.append((self.name, op, other))
         raise OutsideSubset("the code branches on the size of dimension %s (%s %r): a size-dependent path is outside the shape-polymorphic engine" % (self.name, op, other))
 
+    # `x.shape[0] == y.shape[0]` in the code under verification: whether two DIFFERENT symbolic dimensions have the same size is a value-dependent question
+    # (a square grid, as many q-points as modes ...).  It is forked like any other data-dependent branch: on the path where the sizes coincide the two
+    # dimensions broadcast against each other (as they silently do in numpy).  Comparisons made by the engine itself keep identity semantics.
+    def _from_code(self):
+        import sys
+        f = sys._getframe(2)
+        return os.path.realpath(f.f_code.co_filename).startswith(os.path.realpath(core_REPO()) + os.sep)
+
+    def __eq__(self, o):
+        if o is self:
+            return True
+        if isinstance(o, Dim) and self._from_code():
+            SIZE_THRESHOLDS.append((self.name, "== size of", o.name))
+            if Paths.active is None:
+                raise OutsideSubset("the code compares the sizes of dimensions %s and %s" % (self.name, o.name))
+            eq = Paths.active.decide(self.n == o.n)
+            if eq:
+                Paths.active.equal_dims.add(frozenset((id(self), id(o))))
+            return eq
+        if isinstance(o, int) and not isinstance(o, bool) and self._from_code():
+            return self._size_test("==", o)
+        return NotImplemented if not isinstance(o, Dim) else False
+
+    def __ne__(self, o):
+        r = self.__eq__(o)
+        return r if r is NotImplemented else (not r)
+
+    __hash__ = object.__hash__
+
     def __gt__(self, o): return self._size_test(">", o)
     def __ge__(self, o): return self._size_test(">=", o)
     def __lt__(self, o): return self._size_test("<", o)
@@ -282,9 +314,17 @@ def dim_size(d):
     return d.n if isinstance(d, Dim) else z3.IntVal(d)
 
 
+def core_REPO():
+    from . import core
+    return core.REPO
+
+
 def same_dim(a, b):
     if isinstance(a, Dim) or isinstance(b, Dim):
-        return a is b
+        if a is b:
+            return True
+        # two dimensions the current path assumes to be of equal size (forked at a size comparison in the code)
+        return isinstance(a, Dim) and isinstance(b, Dim) and Paths.active is not None and frozenset((id(a), id(b))) in Paths.active.equal_dims
     return a == b
 
 
